@@ -28,11 +28,11 @@ RULE = (
 ASSUMPTIONS = [
     "exact area = spherical excess by the Van Oosterom-Strackee atan2 formula over a corner fan (float64; absolute error < 1e-14)",
     "accuracy thresholds of the statement for the default rule: relative 1e-2 / 1e-4 / 1e-6 for faces up to 65 / 30 / 10 degrees across (largest corner-to-corner angle)",
-    "convergence is judged on the error envelope over the face set: highest order of each family within 1e-10 relative on faces <= 30 degrees across, and the envelope "
+    "convergence is judged on the error envelope over the face set (errors net of a 2e-14 sr absolute floor: the oracle's own float64 resolution, visible on the 0.1-degree faces of the thorough tier): highest order of each family within 1e-10 relative on faces <= 30 degrees across, and the envelope "
     "does not grow with the order beyond a factor 1.5 and a floor of 1e-12",
     "invariance tolerances: start corner / rotation / input kind may change the result by at most the statement's accuracy bound for that face; start-corner invariance is judged for orders >= 4 (coarser rules differ by their own quadrature error); table exactness must be >= 1 and non-decreasing in the order (the 9-point table is a Lobatto-type rule of degree 15, which satisfies this)",
 ]
-BOUNDS = {"quick": "n-gons 4 radii x 13 centres x 1 phase; lattice faces on 2 placements; tables to degree 24", "thorough": "n-gons x 2 phases; lattice faces on 4 placements; cs3 tiling too"}
+BOUNDS = {"quick": "n-gons 4 radii x 13 centres x 1 phase; convex 3-/4-subsets of the 4x4 lattice with index sum = 0 mod 7 on 2 placements; tables to degree 24", "thorough": "n-gons: 7 radii x 13 centres x 3 phases; every convex 3-, 4- and 5-subset of a 5x4 lattice on 6 placements (poles, antimeridian, prime meridian/equator); cs3 tiling too"}
 TRI_ORDERS = [1, 4, 8, 10, 12]
 GAUSS_ORDERS = list(range(1, 11))
 CENTRES = [(0, 90), (0, -90), (180, 0), (-180, 30), (179, -45), (0, 0), (0.5, 50), (45, 45), (-120, 30), (100, -50), (10, 75), (-60, -20), (33, 88)]
@@ -60,21 +60,21 @@ def _ngon(n, radius_deg, centre, phase):
 
 
 def _faces(tier):
-    phases = [0.2] if tier == "quick" else [0.2, 1.1]
+    phases = [0.2] if tier == "quick" else [0.2, 1.1, 2.3]
     for n in range(3, 9):
-        for rad in (1.0, 4.9, 14.9, 32.0):
+        for rad in ((1.0, 4.9, 14.9, 32.0) if tier == "quick" else (0.1, 1.0, 4.9, 9.9, 14.9, 24.0, 32.0)):
             for ci, c in enumerate(CENTRES):
                 for ph in phases:
                     yield {"fam": "ngon", "n": n, "r": rad, "c": ci, "ph": ph}, _ngon(n, rad, c, ph)
-    base = [(2.0 * i + 0.3 * j, 1.7 * j + 0.2 * i) for i in range(4) for j in range(4)]
-    places = [(20.0, 30.0), (-179.0, -40.0)] if tier == "quick" else [(20.0, 30.0), (-179.0, -40.0), (-2.0, 80.0), (100.0, -85.0)]
+    base = [(2.0 * i + 0.3 * j, 1.7 * j + 0.2 * i) for i in range(4 if tier == "quick" else 5) for j in range(4)]
+    places = [(20.0, 30.0), (-179.0, -40.0)] if tier == "quick" else [(20.0, 30.0), (-179.0, -40.0), (-2.0, 80.0), (100.0, -85.0), (0.5, 0.5), (179.0, 89.0)]
     for pi, (lo, la) in enumerate(places):
         R = meshes.rot_axis((0, 0, 1), lo) @ meshes.rot_axis((0, 1, 0), -la)
         pts = [R @ np.array(meshes.lonlat_to_xyz(a, b)) for a, b in base]
-        for k in (3, 4):
-            for comb in itertools.combinations(range(16), k):
-                if (sum(comb) + k) % (7 if tier == "quick" else 3) != 0:
-                    continue
+        for k in ((3, 4) if tier == "quick" else (3, 4, 5)):
+            for comb in itertools.combinations(range(len(base)), k):
+                if tier == "quick" and (sum(comb) + k) % 7 != 0:
+                    continue  # quick: the residue class 0 mod 7 of the index sum; thorough: every subset
                 P = np.array([pts[i] for i in comb])
                 c = sph.unit(P.mean(axis=0))
                 e1 = sph.unit(np.cross([0.3, 0.2, 1.0], c))
@@ -240,7 +240,8 @@ def _run_faces(case, res):
                 tol = _class_tol(ac)
                 key = (rule, order, "le10" if ac <= 10 else "le30" if ac <= 30 else "le65" if ac <= 65 else "gt65")
                 if latlon:
-                    env[key] = max(env.get(key, 0.0), rel)
+                    # convergence envelope: net of the absolute floor of the float64 oracle itself (2e-14 sr), which dominates on faces << 1 degree
+                    env[key] = max(env.get(key, 0.0), max(0.0, abs(a[j] - ex) - 2e-14) / ex)
                 if not (a[j] >= 0.0):
                     V.append({"oracle": "area", "sig": "c05:negative-area", "msg": "face %s start %d: area %r with %s %d" % (d, s, a[j], rule, order), "focus": focus})
                     continue
